@@ -3,7 +3,7 @@
 #   ./seed_all.sh [ids...]     results: /var/tmp/vf-seedsrc/<id>.json, one summary line per seed on stdout
 cd "$(dirname "$0")"
 JOBS=${JOBS:-4}
-extra_for() { case $1 in C02-A) echo "--checks C02,C03,C17";; C03-B) echo "--checks C03,C17";; C06-A|C06-B|C17-A) echo "--checks C06,C17";; C02-C) echo "--checks C02,C16";; C02-D|C02-E) echo "--checks C02,C03";; C04-G) echo "--checks C04,C05";; C11-G) echo "--checks C11,C12";; C11-C) echo "--checks C11,C12";; esac; }
+extra_for() { case $1 in C02-A) echo "--checks C02,C03,C17";; C03-B) echo "--checks C03,C17";; C06-A|C06-B|C17-A) echo "--checks C06,C17";; C02-C) echo "--checks C02,C16";; C02-D|C02-E) echo "--checks C02,C03";; C04-G) echo "--checks C04,C05";; C11-G) echo "--checks C11,C12";; C11-C) echo "--checks C11,C12";; C02-I) echo "--checks C02,C12";; C09-I) echo "--checks C09,C17";; C14-I) echo "--checks C14,C11";; esac; }
 one() {
   sid=$1; d=seeded/$sid
   src=/var/tmp/vf-seedsrc/$sid; rm -rf $src; mkdir -p $src
